@@ -318,6 +318,29 @@ func runC09(c *ev.ChildEnv, res *ev.Result) {
 			c09Resync(dir, res, tag, n)
 		}
 	}
+	// calibrate: how long does the split synchronization of the large state take here
+	var calib time.Duration
+	{
+		dir := fmt.Sprintf("%s/calib", c.Dir)
+		mkdirAll(dir)
+		big := &c09Case{Name: "calibration", Pods: rep(40, 60<<10), Ctrs: rep(360, 60<<10), Peer: "stub"}
+		big.finish()
+		t0 := time.Now()
+		runC09Case(dir, big, "cal", res)
+		calib = time.Since(t0)
+		res.Max("max_calibration_ms", calib.Milliseconds())
+	}
+	for di, frac := range []float64{0.2, 0.35, 0.5, 0.65, 0.8, 0.95} {
+		d := time.Duration(float64(calib) * frac)
+		if di%c.Batches == c.Batch || c.Batches > 6 {
+			tag := fmt.Sprintf("lh%d", di)
+			c.WAL("late handler %s", tag)
+			dir := fmt.Sprintf("%s/%s", c.Dir, tag)
+			mkdirAll(dir)
+			res.Eval()
+			c09LateHandler(dir, res, tag, d)
+		}
+	}
 	k := 0
 	for i, cs := range cases {
 		for _, peer := range []string{"stub", "raw"} {
@@ -472,4 +495,138 @@ func c09Resync(dir string, res *ev.Result, tag string, nbig int) {
 		return
 	}
 	res.Seen(fmt.Sprintf("resync-after-aborted-split|%d", nbig))
+}
+
+// c09LateHandler: the Synchronize handler of a first session is still running when the runtime gives up
+// on it (request timeout) and drops the connection; the same stub registers again and is sent a split
+// state; the old handler returns while the new chunks are being collected. The new session's handler
+// must still receive exactly the runtime's current state.
+func c09LateHandler(dir string, res *ev.Result, tag string, delay time.Duration) {
+	what := map[string]any{"scenario": "late-handler-of-earlier-session", "tag": tag, "old_handler_returns_after_ms": delay.Milliseconds()}
+	adaptation.SetPluginRequestTimeout(time.Second)
+	defer adaptation.SetPluginRequestTimeout(30 * time.Second)
+	var stMu sync.Mutex
+	small := &c09Case{Pods: rep(3, 100), Ctrs: rep(3, 100)}
+	pods, ctrs := c09State(small, tag+"a")
+	rt, err := rig.NewRuntime(dir)
+	if err != nil {
+		return
+	}
+	syncStart := make(chan struct{}, 8)
+	syncDone := make(chan error, 8)
+	rt.SyncFn = func(ctx context.Context, cb adaptation.SyncCB) error {
+		stMu.Lock()
+		p, c := pods, ctrs
+		stMu.Unlock()
+		syncStart <- struct{}{}
+		_, err := cb(ctx, p, c)
+		syncDone <- err
+		return err
+	}
+	if rt.Start() != nil {
+		return
+	}
+	defer rt.Stop()
+	for len(syncDone) > 0 {
+		<-syncDone
+		<-syncStart
+	}
+	release := make(chan struct{})
+	var mu sync.Mutex
+	var calls [][2][]string
+	ncall := 0
+	p := rig.NewPlugin("late", "10", 0, rig.Handlers{
+		Synchronize: func(_ context.Context, ps []*api.PodSandbox, cc []*api.Container) ([]*api.ContainerUpdate, error) {
+			mu.Lock()
+			ncall++
+			first := ncall == 1
+			mu.Unlock()
+			if first {
+				<-release // ignores its context: still running when the runtime gives up
+				return nil, nil
+			}
+			var a, b []string
+			for _, x := range ps {
+				a = append(a, x.Id)
+			}
+			for _, x := range cc {
+				b = append(b, x.Id)
+			}
+			mu.Lock()
+			calls = append(calls, [2][]string{a, b})
+			mu.Unlock()
+			return nil, nil
+		},
+	})
+	released := false
+	defer func() {
+		if !released {
+			close(release)
+		}
+		p.StopStub()
+	}()
+	if err := p.Connect(rt.Sock); err != nil {
+		res.Note("%s: connect: %v", tag, err)
+		return
+	}
+	<-syncStart
+	select {
+	case err := <-syncDone:
+		if err == nil {
+			res.Note("%s: first synchronization unexpectedly succeeded", tag)
+			return
+		}
+	case <-time.After(30 * time.Second):
+		res.Violate("C09/hang", "a synchronization whose handler hangs was not given up after the request timeout (1 s)", what)
+		return
+	}
+	select {
+	case <-p.Closed:
+	case <-time.After(20 * time.Second):
+		res.Note("%s: stub did not notice the dropped connection", tag)
+		return
+	}
+	big := &c09Case{Pods: rep(40, 60<<10), Ctrs: rep(360, 60<<10)}
+	np, nc := c09State(big, tag+"b")
+	stMu.Lock()
+	pods, ctrs = np, nc
+	stMu.Unlock()
+	adaptation.SetPluginRequestTimeout(30 * time.Second)
+	rerr := make(chan error, 1)
+	go func() { rerr <- p.Restart() }()
+	select {
+	case <-syncStart:
+	case <-time.After(30 * time.Second):
+		res.Violate("C09/restart-failed", "the stub did not get to its second synchronization", what)
+		return
+	}
+	time.Sleep(delay)
+	close(release)
+	released = true
+	var second error
+	select {
+	case second = <-syncDone:
+	case <-time.After(100 * time.Second):
+		res.Violate("C09/hang", "second synchronization neither completed nor failed within 100 s", what)
+		return
+	}
+	<-rerr
+	mu.Lock()
+	defer mu.Unlock()
+	var wantP, wantC []string
+	for _, x := range np {
+		wantP = append(wantP, x.Id)
+	}
+	for _, x := range nc {
+		wantC = append(wantC, x.Id)
+	}
+	if second != nil || len(calls) != 1 || strings.Join(calls[0][0], ",") != strings.Join(wantP, ",") || strings.Join(calls[0][1], ",") != strings.Join(wantC, ",") {
+		got := "none"
+		if len(calls) > 0 {
+			got = fmt.Sprintf("%d pods, %d containers", len(calls[0][0]), len(calls[0][1]))
+		}
+		res.Violate("C09/state-differs-after-late-handler", fmt.Sprintf("the re-registered plugin did not receive exactly the runtime's state (%d pods, %d containers, every object <= 64 KiB): err=%v handler calls=%d got %s", len(wantP), len(wantC), second, len(calls), got), what)
+		return
+	}
+	res.Seen(fmt.Sprintf("late-handler|%dms", delay.Milliseconds()))
 }
